@@ -1581,7 +1581,10 @@ int hwloc_bitmap_compare_first(const struct hwloc_bitmap_s * set1, const struct 
 		}
 	}
 
-	return !!set1->infinite - !!set2->infinite;
+	/* no bit found in the common and extra ulongs:
+	 * an infinite set starts right after them, hence is smaller than the other (empty) set.
+	 */
+	return !!set2->infinite - !!set1->infinite;
 }
 
 int hwloc_bitmap_compare(const struct hwloc_bitmap_s * set1, const struct hwloc_bitmap_s * set2)
